@@ -4,10 +4,13 @@ import (
 	"fmt"
 	"go/ast"
 	"go/token"
+	"go/types"
+	"sort"
 	"strings"
 
 	"golang.org/x/tools/go/packages"
 
+	"verif/checker/internal/eval"
 	"verif/checker/internal/flow"
 	"verif/checker/internal/load"
 	"verif/checker/internal/ref"
@@ -33,7 +36,7 @@ func init() {
 		Rule: "R05.2", Construct: "namespace skip"})
 	mutant(&Mutant{Name: "c05-drop-width-100", Property: "C05", File: "svg/svg.go",
 		Old: "\t\t\t\t\tattr == Y && bytes.Equal(val, zeroBytes) ||\n", New: "\t\t\t\t\tattr == Y && bytes.Equal(val, zeroBytes) ||\n\t\t\t\t\tattr == Width && bytes.Equal(val, zeroBytes) ||\n",
-		Rule: "R05.2", Construct: "default value width="})
+		Rule: "R05.2", Construct: "width=\"0\""})
 	mutant(&Mutant{Name: "c05-drop-title", Property: "C05", File: "svg/svg.go",
 		Old: "\t\t\tif tag == Metadata {\n\t\t\t\tt.Data = nil\n", New: "\t\t\tif tag == Metadata {\n\t\t\t\tt.Data = nil\n\t\t\t} else if tag == Style {\n\t\t\t\tt.Data = nil\n",
 		Rule: "R05.3", Construct: "element dropped"})
@@ -185,24 +188,41 @@ func (c *Ctx) r052(pk *packages.Package) {
 				c.R.Bad(r2, "svg.Minifier.Minify/attribute skip: unconditional", c.pos(b), "an attribute is skipped unconditionally")
 				continue
 			}
-			pairs := c.attrValuePairs(pk, ifs.Cond)
-			if len(pairs) == 0 {
+			drops, undecided := c.dropCases(pk, h, ifs.Cond)
+			if undecided != "" {
+				c.R.Unres(r2, "svg.Minifier.Minify/attribute skip: default-value condition", c.pos(ifs.Cond), "the condition is not a function of attr, tag, val and evaluable tables: "+undecided)
+				continue
+			}
+			if len(drops) == 0 {
 				c.R.Bad(r2, "svg.Minifier.Minify/attribute skip: unrecognised guard", c.pos(b), "attribute dropped under a condition that is neither `already removed`, a default-value test nor a namespace test: "+str(ifs.Cond))
 				continue
 			}
-			for _, p := range pairs {
-				name, _ := h.decode(p.hash)
-				construct := fmt.Sprintf("svg.Minifier.Minify/attribute skip: default value %s=%q", name, p.value)
-				want, known := ref.SVGDefaultAttrValues[name]
+			for _, d := range drops {
+				elem := d.tag
+				construct := fmt.Sprintf("svg.Minifier.Minify/attribute skip: default value %s=%q", d.attr, d.value)
+				if elem != "*" {
+					construct = fmt.Sprintf("svg.Minifier.Minify/attribute skip: default value %s %s=%q", elem, d.attr, d.value)
+				}
 				switch {
-				case p.anyValue && name == "xmlns":
-					c.R.OK(r2, construct, c.pos(p.at), "xmlns on an inline <svg> (HTML parser assigns the namespace)")
-				case !known:
-					c.R.Bad(r2, construct, c.pos(p.at), "attribute "+name+" is dropped when it equals "+fmt.Sprintf("%q", p.value)+", but no SVG default is documented for it: the value is lost")
-				case want != p.value:
-					c.R.Bad(r2, construct, c.pos(p.at), fmt.Sprintf("attribute %s is dropped when it equals %q, but its default is %q: dropping it changes the document (%s)", name, p.value, want, ref.SVGDefaultWhy[name]))
+				case d.attr == "*":
+					c.R.Bad(r2, construct, c.pos(ifs.Cond), "an attribute is dropped whatever its name")
+				case d.value == "*" && d.attr == "xmlns" && elem == "svg":
+					c.R.OK(r2, construct, c.pos(ifs.Cond), "xmlns on an inline <svg> (the HTML parser assigns the namespace); only with o.Inline")
+				case d.value == "*":
+					c.R.Bad(r2, construct, c.pos(ifs.Cond), "attribute "+d.attr+" is dropped whatever its value")
 				default:
-					c.R.OK(r2, construct, c.pos(p.at), "documented default")
+					want, known := ref.SVGDefaultAttrValues[elem+" "+d.attr]
+					if !known {
+						want, known = ref.SVGDefaultAttrValues["* "+d.attr]
+					}
+					switch {
+					case !known:
+						c.R.Bad(r2, construct, c.pos(ifs.Cond), fmt.Sprintf("attribute %s=%q is dropped on <%s>, but no unconditional default %q is documented for that attribute on that element (e.g. x/y default to -10%% on mask and filter and are inherited through href on pattern): the attribute's value is lost", d.attr, d.value, elem, d.value))
+					case want != d.value:
+						c.R.Bad(r2, construct, c.pos(ifs.Cond), fmt.Sprintf("attribute %s is dropped when it equals %q, but its default is %q: dropping it changes the document (%s)", d.attr, d.value, want, ref.SVGDefaultWhy[d.attr]))
+					default:
+						c.R.OK(r2, construct, c.pos(ifs.Cond), "documented default")
+					}
 				}
 			}
 		}
@@ -351,5 +371,216 @@ func (c *Ctx) expandLocals(pk *packages.Package, g *flow.Graph, test *flow.Node)
 		}
 		return true
 	})
+	return out
+}
+
+type dropCase struct{ tag, attr, value string }
+
+// dropCases evaluates the attribute-dropping condition over the finite domain
+// attr ∈ {hashes mentioned, other} × tag ∈ {hashes mentioned or keys of indexed tables, other} ×
+// val ∈ {constants mentioned, other} (free atoms such as o.Inline take both values) and
+// returns every (tag, attr, value) for which the attribute can be dropped ("*" = any / other).
+func (c *Ctx) dropCases(pk *packages.Package, h *hashTable, cond ast.Expr) ([]dropCase, string) {
+	info := pk.TypesInfo
+	attrs, tags, vals := map[int64]bool{}, map[int64]bool{}, map[string]bool{}
+	tables := map[string]map[int64]bool{}
+	var free []string
+	freeSeen := map[string]bool{}
+	undecided := ""
+	var collect func(e ast.Expr)
+	collect = func(e ast.Expr) {
+		e = ast.Unparen(e)
+		switch x := e.(type) {
+		case *ast.UnaryExpr:
+			if x.Op == token.NOT {
+				collect(x.X)
+				return
+			}
+		case *ast.BinaryExpr:
+			if x.Op == token.LAND || x.Op == token.LOR {
+				collect(x.X)
+				collect(x.Y)
+				return
+			}
+			if x.Op == token.EQL || x.Op == token.NEQ {
+				if v, ok := intConst(info, x.Y); ok && (str(x.X) == "attr" || str(x.X) == "tag") {
+					if str(x.X) == "attr" {
+						attrs[v] = true
+					} else {
+						tags[v] = true
+					}
+					return
+				}
+			}
+		case *ast.CallExpr:
+			if call := isCall(info, x, "bytes.Equal"); call != nil && str(call.Args[0]) == "val" {
+				if v, err := c.Ev.Expr(pk, call.Args[1]); err == nil {
+					if bs, ok := v.([]byte); ok {
+						vals[string(bs)] = true
+						return
+					}
+				}
+			}
+		case *ast.IndexExpr:
+			if str(x.Index) == "tag" || str(x.Index) == "attr" {
+				if v, err := c.Ev.Expr(pk, x.X); err == nil {
+					if m, ok := v.(*eval.Map); ok {
+						t := map[int64]bool{}
+						for _, en := range m.Entries {
+							k, _ := en.Key.(int64)
+							bv, _ := en.Value.(bool)
+							t[k] = bv
+							if str(x.Index) == "tag" {
+								tags[k] = true
+							} else {
+								attrs[k] = true
+							}
+						}
+						tables[str(x)] = t
+						return
+					}
+				}
+			}
+		}
+		// free boolean atom
+		k := str(e)
+		if tv, ok := info.Types[e]; ok && tv.Type != nil && types.TypeString(tv.Type, nil) == "bool" || true {
+			if !freeSeen[k] {
+				freeSeen[k] = true
+				free = append(free, k)
+			}
+		}
+	}
+	collect(cond)
+	if len(free) > 8 {
+		return nil, "too many free atoms"
+	}
+	var evalB func(e ast.Expr, a, t int64, v string, fv map[string]bool) bool
+	evalB = func(e ast.Expr, a, t int64, v string, fv map[string]bool) bool {
+		e = ast.Unparen(e)
+		switch x := e.(type) {
+		case *ast.UnaryExpr:
+			if x.Op == token.NOT {
+				return !evalB(x.X, a, t, v, fv)
+			}
+		case *ast.BinaryExpr:
+			switch x.Op {
+			case token.LAND:
+				return evalB(x.X, a, t, v, fv) && evalB(x.Y, a, t, v, fv)
+			case token.LOR:
+				return evalB(x.X, a, t, v, fv) || evalB(x.Y, a, t, v, fv)
+			case token.EQL, token.NEQ:
+				if k, ok := intConst(info, x.Y); ok && (str(x.X) == "attr" || str(x.X) == "tag") {
+					cur := a
+					if str(x.X) == "tag" {
+						cur = t
+					}
+					return (cur == k) == (x.Op == token.EQL)
+				}
+			}
+		case *ast.CallExpr:
+			if call := isCall(info, x, "bytes.Equal"); call != nil && str(call.Args[0]) == "val" {
+				if cv, err := c.Ev.Expr(pk, call.Args[1]); err == nil {
+					if bs, ok := cv.([]byte); ok {
+						return v == string(bs)
+					}
+				}
+			}
+		case *ast.IndexExpr:
+			if tb, ok := tables[str(x)]; ok {
+				if str(x.Index) == "tag" {
+					return tb[t]
+				}
+				return tb[a]
+			}
+		}
+		return fv[str(e)]
+	}
+	const other = int64(-1)
+	const otherVal = "\x00other"
+	name := func(hv int64) string {
+		if hv == other {
+			return "*"
+		}
+		n, _ := h.decode(hv)
+		return n
+	}
+	seen := map[dropCase]bool{}
+	var out []dropCase
+	al := append(keysI(attrs), other)
+	tl := append(keysI(tags), other)
+	vl := append(sortedKeys(vals), otherVal)
+	for _, a := range al {
+		for _, t := range tl {
+			for _, v := range vl {
+				dropped := false
+				for m := 0; m < 1<<len(free); m++ {
+					fv := map[string]bool{}
+					for i, f := range free {
+						fv[f] = m&(1<<i) != 0
+					}
+					if evalB(cond, a, t, v, fv) {
+						dropped = true
+					}
+				}
+				if !dropped {
+					continue
+				}
+				vs := v
+				if v == otherVal {
+					vs = "*"
+				}
+				d := dropCase{name(t), name(a), vs}
+				if !seen[d] {
+					seen[d] = true
+					out = append(out, d)
+				}
+			}
+		}
+	}
+	// collapse: if an (attr, value) is dropped for every tag including other, report it once with tag "*"
+	var res []dropCase
+	byAV := map[[2]string][]string{}
+	for _, d := range out {
+		k := [2]string{d.attr, d.value}
+		byAV[k] = append(byAV[k], d.tag)
+	}
+	done := map[[2]string]bool{}
+	for _, d := range out {
+		k := [2]string{d.attr, d.value}
+		if len(byAV[k]) == len(tl) {
+			if !done[k] {
+				done[k] = true
+				res = append(res, dropCase{"*", d.attr, d.value})
+			}
+			continue
+		}
+		res = append(res, d)
+	}
+	// a value-independent drop subsumes its specific values
+	var fin []dropCase
+	for _, d := range res {
+		if d.value != "*" {
+			sub := false
+			for _, e := range res {
+				if e.value == "*" && e.attr == d.attr && e.tag == d.tag {
+					sub = true
+				}
+			}
+			if sub {
+				continue
+			}
+		}
+		fin = append(fin, d)
+	}
+	return fin, undecided
+}
+
+func keysI(m map[int64]bool) []int64 {
+	var out []int64
+	for k := range m {
+		out = append(out, k)
+	}
+	sort.Slice(out, func(i, j int) bool { return out[i] < out[j] })
 	return out
 }
